@@ -78,3 +78,14 @@ Proof. reflexivity. Qed.
 
 Definition orderby_tree (p : orderby) : tree := TL [TL (map TI (ob_cols p))].
 Definition orderby_of_tree (t : tree) : orderby := {| ob_cols := map t_int (t_list (t_nth 0 t)) |}.
+
+(* the ORDERBY2 length field of the layout equals the number of bytes that follow it *)
+Lemma wire_orderby2_len p : Forall (fun c => True) (ob_cols p) ->
+  exists rest, wire_orderby2_body p = bytes_of_le 4 (zlen rest) ++ rest.
+Proof.
+  intros _. exists (bytes_of_le 2 (zlen (ob_cols p)) ++ concat (map (bytes_of_le 2) (ob_cols p))).
+  unfold wire_orderby2_body. f_equal. f_equal. rewrite zlen_app, zlen_bytes_of_le, zlen_concat, map_map.
+  change (Z.of_nat 2) with 2. f_equal.
+  induction (ob_cols p) as [|c l IH]; [reflexivity|]. cbn [map zsum fold_right]. rewrite zlen_bytes_of_le, zlen_cons.
+  unfold zsum in IH. rewrite <- IH. change (Z.of_nat 2) with 2. lia.
+Qed.
